@@ -27,8 +27,11 @@ IsNode(v)  == v.k = "n"
 IsNilV(v)  == v.k = "nil"
 IsPrim(v)  == v.k = "p"
 (* value.toConfig succeeds for sub-configs and for nil (types.go:223) *)
-ToCfgOk(v) == v.k \in {"n", "nil"}
-AsCfg(v)   == IF v.k = "nil" THEN Empty ELSE v
+\* [k |-> "alias", to, tgt]: a setting of the SOURCE of a merge that is exactly one reference ${to} to a
+\* sub-config tgt of the same source (variable expansion on): it converts to a config like the target does
+Alias(to, tgt) == [k |-> "alias", to |-> to, tgt |-> tgt]
+ToCfgOk(v) == v.k \in {"n", "nil", "alias"}
+AsCfg(v)   == IF v.k = "nil" THEN Empty ELSE IF v.k = "alias" THEN v.tgt ELSE v
 
 Max(x, y) == IF x > y THEN x ELSE y
 Min(x, y) == IF x < y THEN x ELSE y
@@ -78,6 +81,7 @@ ObsParts(t) ==
       all |-> dd]
 Obs(v) ==
   IF v.k = "nil" THEN ONil
+  ELSE IF v.k = "alias" THEN Obs(v.tgt)      \* read with variable expansion: the referenced value
   ELSE IF v.k = "p" THEN OPrim(v)
   ELSE LET p == ObsParts(v) IN
        IF Len(p.l) = 0
@@ -97,6 +101,17 @@ ObsTop(t) ==
   LET p == ObsParts(t) IN
   [m |-> IF DOMAIN p.m = {} THEN ONil ELSE [t |-> "m", m |-> p.m],
    l |-> IF Len(p.l) = 0 THEN ONil ELSE [t |-> "l", l |-> p.l]]
+
+(* The generic targets show an explicit nil and an EMPTY object alike (both unpack to nil); typed reads do not
+   (a nil leaves a pointer field alone, an empty object is a type error for an int).  NilPaths lists the
+   positions that hold an explicit nil - the merge family compares it in addition to the pair above.       *)
+RECURSIVE NilPaths(_,_)
+NilPaths(t, p) ==
+  IF t.k = "nil" THEN {p}
+  ELSE IF t.k # "n" THEN {}
+  ELSE UNION {NilPaths(t.d[key], Append(p, key)) : key \in DOMAIN t.d}
+       \cup UNION {NilPaths(t.a[i], Append(p, ToString(i-1))) : i \in 1..Len(t.a)}
+ObsTopN(t) == [m |-> ObsTop(t).m, l |-> ObsTop(t).l, nils |-> NilPaths(t, <<>>)]
 
 (* ---- addressing inside trees (for the declarative properties) -------------
    A position is a sequence of steps NF(name) / IX(i) (0-based index).        *)
